@@ -115,6 +115,9 @@ RECURSIVE Undeco(_)
 Undeco(T) == IF T.t = "deco" THEN Undeco(T.a) ELSE T
 MergedAtCompileTime(T) == \A i \in DOMAIN T.ms : Undeco(T.ms[i]).t = "obj" /\ Undeco(T.ms[i]).ix = <<>>
 
+\* numeric literals (as written) whose truncation to 9 fractional digits changes them
+InexactFractions == {"3.14159"}
+
 \* ------------------------------------------------------------------ membership
 ObjM3(v, T, env, D, s) ==
   IF ~IsObjLike(v)
@@ -149,7 +152,9 @@ TupM3(v, T, env, D, s) ==
 
 M3(v, T, env, D, s) ==
   CASE T.t = "prim"  -> PrimM3(v, T.p)
-    [] T.t = "lit"   -> B3(v = T.v)
+    \* deviation "fractionalLiteralTruncated": the compiler keeps 9 fractional digits by truncation, so a numeric literal type whose
+    \* fraction is not exact after `* 1e9` (3.14159 -> 3.141589999) is compiled to another number and rejects its own value
+    [] T.t = "lit"   -> IF "fractionalLiteralTruncated" \in D /\ T.v.k = "num" /\ T.v.n \in InexactFractions /\ v = T.v THEN "F" ELSE B3(v = T.v)
     [] T.t = "tpl"   -> IF v.k = "str" THEN TplMatch(v.s, T.parts, D) ELSE "F"
     [] T.t = "sfmt"  -> B3(v.k = "str" /\ \A i \in DOMAIN T.fs : StrFmtOk(T.fs[i], v.s))
     [] T.t = "nfmt"  -> B3(v.k = "num" /\ \A i \in DOMAIN T.fs : NumFmtOk(T.fs[i], v.n))
